@@ -211,6 +211,36 @@ impl Monitor for C15 {
                 o => ctx.violation(format!("soft-path problem did not return Ok: {}", o.tag()), format!("n={} k={k} i={i} j={j}", c.n)),
             }
         }
+        // soft first, discovery later: candidate j is requested directly (and accepted) while nothing
+        // has requested the package; a LATER soft requirement `sw` needs a range of the package, which
+        // makes the encoder discover the package only then: never two candidates together, and j stays
+        for &(k, _i, j) in c.soft_triples.iter().take(6) {
+            if k == 0 {
+                continue;
+            }
+            ctx.rep.evaluations += 1;
+            ctx.rep.count("soft-then-discovery-problems");
+            let mut uu = (*u).clone();
+            let sw = uu.solv("sw", 1);
+            let range = uu.vs("a", 1, k + 1);
+            uu.add_req(sw, Req::Single(range));
+            uu.finalize();
+            let uu = Rc::new(uu);
+            let p = Prob { reqs: vec![], cons: vec![], soft: vec![j, sw] };
+            let (_sess, out) = solve_once(&uu, &p, &c.opts);
+            match &out {
+                Outcome::Ok(sol) => {
+                    let of_a: Vec<u32> = sol.iter().copied().filter(|&s| uu.solvs[s as usize].name == 0).collect();
+                    if of_a != vec![j] {
+                        ctx.violation(
+                            "directly requested candidate and a later discovered candidate of the package selected together (or the accepted one lost)",
+                            format!("n={} soft [{j}, sw requires 0..{k}] -> candidates of the package in the solution: {:?}", c.n, of_a),
+                        );
+                    }
+                }
+                o => ctx.violation(format!("soft-then-discovery problem did not return Ok: {}", o.tag()), format!("n={} k={k} j={j}", c.n)),
+            }
+        }
         // discovery through a `constrains` entry first: w=2 (tried first) constrains the package to a
         // range (its other candidates become known to the solver as non-matching ones) and needs
         // q=1, which requires candidate j outside the range -> w=2 is abandoned; w=1 needs z=1,
